@@ -24,6 +24,32 @@ def stream_writes(P, u, fname, inline=('is_hash',)):
     """Fields of the tokens of its INPUT list that the token-stream function `fname` (preprocess2) writes on the path
     where tokens are neither macros nor directives (expand_macro answers false, the directive test fails): {field: line}.
     Callees other than the directive test end the path (they are not followed)."""
+    it, paths = stream_paths(P, u, fname, inline)
+    res = {}
+    for ctx, out in paths:
+        for e in ctx.events:
+            if e[0] == 'fstore' and isinstance(e[1], Obj) and e[1].meta.get('input'):
+                res.setdefault(e[2], None)
+    return res
+
+
+def stream_paths(P, u, fname, inline=('is_hash',)):
+    """(it, returning paths) of `fname` on a stream of tokens that are neither macros nor directives; the tokens of the input
+    list carry meta['input']; stores are tracked"""
+    memo = getattr(P, '_c09y_stream', None)
+    if memo is None:
+        memo = {}
+        try:
+            P._c09y_stream = memo
+        except Exception:
+            pass
+    key = (fname, tuple(inline))
+    if key not in memo:
+        memo[key] = _stream_paths(P, u, fname, inline)
+    return memo[key]
+
+
+def _stream_paths(P, u, fname, inline):
     if fname not in u.functions:
         raise AnalysisBroken('anchor %s vanished' % fname)
     callees = set(c.callee() for c in u.fn(fname).walk() if c.kind == 'CallExpr' and c.callee())
@@ -58,18 +84,10 @@ def stream_writes(P, u, fname, inline=('is_hash',)):
         ctx.tok = Obj('Token', lazy=True, label='tok')
         ctx.tok.meta['input'] = True
         return [ctx.tok]
-    res = {}
-    nret = 0
-    for ctx, out in it.explore(fname, mk, max_paths=4000):
-        if out[0] != 'ret':
-            continue
-        nret += 1
-        for e in ctx.events:
-            if e[0] == 'fstore' and isinstance(e[1], Obj) and e[1].meta.get('input'):
-                res.setdefault(e[2], None)
-    if nret == 0:
+    paths = [(ctx, out) for ctx, out in it.explore(fname, mk, max_paths=4000) if out[0] == 'ret']
+    if not paths:
         raise AnalysisBroken('%s has no returning path on a stream without macros and directives' % fname)
-    return res
+    return it, paths
 
 
 def token_param_writes(P, u, fname, opaque=('tokenize', 'new_file', 'quote_string', 'stat', 'ctime_r')):
